@@ -35,6 +35,9 @@ LANES = {
                  "-fsanitize=float-cast-overflow -fno-sanitize-recover=all -fno-common".split(),
                  ld="-fsanitize=address,undefined".split()),
     "plain": dict(cc="gcc", flags="-O1 -g -fno-omit-frame-pointer -fno-common".split(), ld=[]),
+    "fuzz": dict(cc="clang", flags="-O1 -g -fno-omit-frame-pointer -fsanitize=fuzzer-no-link,address,undefined "
+                 "-fno-sanitize-recover=all -fno-common -DSIMK_FUZZ".split(),
+                 ld="-fsanitize=fuzzer,address,undefined".split()),
     "msan": dict(cc="clang", flags="-O1 -g -fno-omit-frame-pointer -fsanitize=memory "
                  "-fsanitize-memory-track-origins -fno-common".split(),
                  ld="-fsanitize=memory".split()),
@@ -146,7 +149,7 @@ def build(kind="simd", config="default", lane="asan", extra_sources=(), extra_fl
     key.update(tree_hash(repo).encode())
     key.update(repr((kind, sorted(cfg.items()), lane, lane_d, sorted(wraps), cjet_units,
                      list(extra_flags), list(link_extra), main_rename)).encode())
-    for s in extra_sources:
+    for s in list(extra_sources) + [os.path.join(VERIF, "simk", "simk_fuzz.inc")]:
         with open(s, "rb") as fh:
             key.update(fh.read())
     bdir = os.path.join(BUILD_ROOT, (name or kind) + "-" + key.hexdigest()[:16])
